@@ -60,7 +60,8 @@ RaceOps(kind, n) == [i \in 1..n |->
    CASE kind = "SetNX"  -> [op |-> "SetNX", k |-> "s1", v |-> "a", ttl |-> "0"]
      [] kind = "CAS"    -> [op |-> "CAS", k |-> "s1", old |-> "nil", v |-> "a", ttl |-> "0"]
      [] kind = "IncrBy" -> [op |-> "IncrBy", k |-> "c1", n |-> 1]
-     [] kind = "Append" -> [op |-> "Append", k |-> "l1", v |-> "a"]]
+     [] kind = "Append" -> [op |-> "Append", k |-> "l1", v |-> "a"]
+     [] kind = "ExpSet" -> [op |-> "Get", k |-> "s1"]]
 Fresh0 == [k \in AllKeys |-> NoneOf(k)]
 TrRace == /\ Is("Race")
           /\ LET ops == RaceOps(Ev.kind, Ev.n)
@@ -68,6 +69,11 @@ TrRace == /\ Is("Race")
                  good == CASE Ev.kind \in {"SetNX", "CAS"} -> Ev.trues = SeqTrues(Fresh0, ops, 1)
                            [] Ev.kind = "IncrBy" -> Ev.distinct /\ Ev.final = fin["c1"].v
                            [] Ev.kind = "Append" -> Ev.final = Len(fin["l1"].v)
+                           \* ExpSet: the key holds an EXPIRED (unswept) entry; one caller Sets a never-expiring value while
+                           \* the others only read it (Get / Exists / GetExpiration / GetHash / GetAllHash).  Reads are pure in
+                           \* the reference (KV.tla ReadsArePure, GhostsInvisible), so in every linearization the Set's value
+                           \* is live afterwards: final = 1 means a Get after the round returned it.
+                           [] Ev.kind = "ExpSet" -> Ev.final = 1
              IN viol' = IF good THEN viol ELSE viol \cup {V("NotAtomic", Ev.be \o ":race:" \o Ev.kind)}
           /\ l' = l + 1 /\ UNCHANGED <<poss, dead>>
 
